@@ -145,6 +145,14 @@ class RoundTrip(Leg):
                 seen, order = PS.canon_walk(copy)
                 if any(id(o) in orig_ids for o in order):
                     problems.append(f"copy loaded with {loader} shares an object with the original")
+                try:
+                    stale = PS.mutate_and_compare(copy)      # the copy is a live graph of its own (edited last: it is discarded)
+                except Exception as e:  # noqa: BLE001
+                    stale = f"editing the loaded copy raised {type(e).__name__}: {e}"
+                if stale:
+                    problems.append(f"copy loaded with {loader}: {stale}")
+                if PS.snapshot(root) != orig_snap:
+                    problems.append(f"editing the copy loaded with {loader} changed the original")
             if case["fresh"]:
                 for loader in ("pickle", "dill"):
                     r = fresh_load(data, loader, case["cache_load"])
@@ -155,6 +163,8 @@ class RoundTrip(Leg):
                         problems.append(f"fresh interpreter ({loader}): copy not isomorphic: {_first_diff(json.loads(json.dumps(orig_snap)), r['snapshot'])}")
                     if r["queries"] != json.loads(json.dumps(orig_q)):
                         problems.append(f"fresh interpreter ({loader}, caching={case['cache_load']}): queries differ: {_first_diff(json.loads(json.dumps(orig_q)), r['queries'])}")
+                    if r.get("stale"):
+                        problems.append(f"fresh interpreter ({loader}): {r['stale']}")
         finally:
             w.close()
         return {"problems": problems}
